@@ -71,7 +71,7 @@ pub fn lll(basis: &[Vec<f64>]) -> (Vec<Vec<f64>>, Vec<Vec<BigInt>>) {
             for i in k + 2..kmax + 1 {
                 let t = mu[i][k + 1];
                 mu[i][k + 1] = mu[i][k] - tmpmu * t;
-                mu[i][k] = t + mu[k + 1][k] * mu[i][k];
+                mu[i][k] = t + mu[k + 1][k] * mu[i][k + 1];
             }
         };
     }
@@ -89,6 +89,9 @@ pub fn lll(basis: &[Vec<f64>]) -> (Vec<Vec<f64>>, Vec<Vec<BigInt>>) {
                     h[k][u] -= tmp;
                 }
                 mu[k][l] -= qr;
+                for i in 0..l {
+                    mu[k][i] -= qr * mu[l][i];
+                }
             }
         };
     }
